@@ -58,7 +58,14 @@ RULE = ("random discrete Bayesian networks (1-6 nodes; chains, forks, colliders,
         "generate_sample (n_jobs is accepted and ignored by the code); K = kind badcall (later invalid argument, unknown "
         "states / variables / cardinalities -> ValueError / KeyError = model error 6, model unchanged, valid call afterwards); "
         "boundary start states -1 / 0 / card-1 / card / card+1 at every position through sample, generate_sample, set_start_state "
-        "and the MarkovChain constructor (kind gibbs_start); L = node / edge / CPD insertion orders, parent order in the CPD, evidence order, hash seeds; M is tools/check.py")
+        "and the MarkovChain constructor (kind gibbs_start); N = node and state names handed to evidence / do / start_state are rebuilt at run time (equal, not identical; ints above "
+        "256 as node and state names); O = evidence as list / tuple / generator / plain tuples, start_state as list / tuple / "
+        "generator / dict items (rejection_sample takes len(evidence): sized containers only; a dict start_state is "
+        "documented but raises KeyError - reported, not a sampling statement); P = kind wide (257..400 states as child, "
+        "parent and middle of a chain, mass on state numbers >= 256), 9-12 node chains / trees, sizes 8 / 9 / 16 / 17 / 32 / 33 "
+        "/ 257; Q = columns typed with 2, 3 or 4 decimals (roots: |1-sum| <= 9e-4 adjusted, >= 1.2e-3 must raise); R = the "
+        "option mixes of simulate (do x evidence x virtual evidence x virtual intervention x partial x latents) and of the "
+        "samplers (partial x latents x evidence) are drawn independently; L = node / edge / CPD insertion orders, parent order in the CPD, evidence order, hash seeds; M is tools/check.py")
 TRUSTED_BASE = ["numpy.random.choice(a, size, p) draws independent indices with law p (coq/C07/Dist.v `draw`); the "
                 "Mersenne-Twister / seeding of numpy is not modelled",
                 "pandas DataFrame column assignment, boolean filtering, concat/iloc, Series.map; numpy unique/vstack",
@@ -121,6 +128,33 @@ def net_from_model(model):
             "vals": vals, "lat": sorted(idx[x] for x in model.latents), "buf": False}
 
 
+def fresh(x):
+    """an EQUAL but not identical object (class N): names handed to a query are rebuilt at run time"""
+    if isinstance(x, bool):
+        return x
+    if isinstance(x, str):
+        return "".join(list(x))
+    if isinstance(x, int):
+        return int(str(x))
+    if isinstance(x, tuple):
+        return tuple(fresh(y) for y in x)
+    return x
+
+
+def as_container(rng, items, kinds):
+    """the same items as a list / tuple / generator / dict view (class O: every documented container type)"""
+    k = rng.choice(kinds)
+    if k == "tuple":
+        return tuple(items), k
+    if k == "gen":
+        return (x for x in items), k
+    if k == "plain":
+        return [tuple(x) for x in items], k
+    if k == "items":
+        return dict((a, b) for a, b in items).items(), k
+    return list(items), k
+
+
 def intern_names(names):
     """python state names of one variable -> Z values of the model"""
     out = []
@@ -158,6 +192,8 @@ def gen_names(rng, card, style):
         return [["i", i] for i in p]
     if style == "anyint":
         return [["i", i] for i in rng.sample(range(0, card + 3), card)]
+    if style == "bigint":
+        return [["i", 1000 + 7 * i] for i in range(card)]      # ints above 256 are not cached objects (class N)
     if style == "onebased":
         return [["i", i + 1] for i in range(card)]
     if style == "bool":
@@ -179,9 +215,17 @@ def dec_column(rng, card, root, far=False):
     if card == 1:
         d = rng.choice([0, 0, -3, 4]) if root else 0
         return [Fraction(float((10000 + d) / 10000.0))]
-    d = rng.choice([-9, -7, -4, -1, 1, 2, 5, 9, 9, -9, 0])
-    if far and root:
-        d = rng.choice([12, -15, 25, -40])
+    ndec = rng.choice([2, 3, 4, 4])       # class Q: tables typed with two, three or four decimals
+    unit = 10 ** ndec
+    if root:
+        # a root column reaches _adjusted_weights un-normalised: |1 - sum| is kept away from the 1e-3 threshold
+        if far:
+            d = {2: rng.choice([1, -1]), 3: rng.choice([2, -2, 5]), 4: rng.choice([12, -15, 25, -40])}[ndec]
+        else:
+            d = {2: 0, 3: 0, 4: rng.choice([-9, -7, -4, -1, 1, 2, 5, 9, 9, -9, 0])}[ndec]
+    else:
+        d = {2: rng.choice([-1, 0, 1]), 3: rng.choice([-9, -4, -1, 0, 1, 5, 9]),
+             4: rng.choice([-90, -9, -7, -1, 1, 2, 5, 9, 90, 0])}[ndec]
     zpos = set()
     how = rng.choice(["none", "last", "last", "first", "middle", "two"])
     if how == "last":
@@ -193,18 +237,21 @@ def dec_column(rng, card, root, far=False):
     elif how == "two" and card >= 3:
         zpos = set(rng.sample(range(card), 2))
     nz = [i for i in range(card) if i not in zpos]
-    total = 10000 + d
+    total = unit + d
     cuts = sorted(rng.randint(1, total - 1) for _ in range(len(nz) - 1))
     parts = [b_ - a_ for a_, b_ in zip([0] + cuts, cuts + [total])]
     col = [Fraction(0)] * card
     for i, k in zip(nz, parts):
-        col[i] = Fraction(float(round(k / 10000.0, 4)))
+        col[i] = Fraction(float(round(k / float(unit), ndec)))
     return col
 
 
-def gen_net(rng, nmax=6, styles=None, zeros=True, maxcard=4, min_edges=0, str_nodes=False, dec=False, far=False):
-    n = rng.randint(1, nmax)
+def gen_net(rng, nmax=6, styles=None, zeros=True, maxcard=4, min_edges=0, str_nodes=False, dec=False, far=False,
+            nmin=1):
+    n = rng.randint(nmin, nmax)
     shape = rng.choice(["rand", "rand", "chain", "fork", "collider", "family", "isolated"])
+    if nmin >= 9:
+        shape = rng.choice(["chain", "chain", "tree", "rand"])
     ids = list(range(n))
     perm = ids[:]
     rng.shuffle(perm)
@@ -217,6 +264,8 @@ def gen_net(rng, nmax=6, styles=None, zeros=True, maxcard=4, min_edges=0, str_no
                     edges.append([perm[i], perm[j]])
     elif shape == "chain":
         edges = [[perm[i], perm[i + 1]] for i in range(n - 1)]
+    elif shape == "tree":
+        edges = [[perm[rng.randrange(i)], perm[i]] for i in range(1, n)]
     elif shape == "fork":
         edges = [[perm[0], perm[i]] for i in range(1, n)]
     elif shape in ("collider", "family"):
@@ -236,7 +285,7 @@ def gen_net(rng, nmax=6, styles=None, zeros=True, maxcard=4, min_edges=0, str_no
     rng.shuffle(edges)
     card = [rng.choice([1, 2, 2, 2, 3, 3, 4][: (3 + maxcard)]) for _ in ids]
     card = [min(c, maxcard) for c in card]
-    styles = styles or ["str", "int", "perm", "anyint", "tuple", "mixed", "onebased", "bool"]
+    styles = styles or ["str", "int", "perm", "anyint", "tuple", "mixed", "onebased", "bool", "bigint"]
     netstyle = rng.choice(styles + ["each"])
     names = []
     for v in ids:
@@ -267,18 +316,20 @@ def gen_net(rng, nmax=6, styles=None, zeros=True, maxcard=4, min_edges=0, str_no
         vals.append([[x.numerator, x.denominator] for x in flat])
     r = rng.random()
     if r < 0.45:
-        pool = ["A", "B", "C", "D", "E", "F", "G", "H"]
+        pool = ["A", "B", "C", "D", "E", "F", "G", "H", "Ab", "Ba", "Cd", "De", "Ef"]
         rng.shuffle(pool)
         nodes = [["s", x] for x in pool[:n]]
     elif r < 0.75 or str_nodes:
         # names that are substrings of one another, that collide with simulate's "__" + name children, keywords
-        pool = ["x1", "x10", "x", "x11", "G", "G2", "__G", "__x1", "___x1", "_", "weight", "index", "size", "0", "1 "]
+        pool = ["x1", "x10", "x", "x11", "G", "G2", "__G", "__x1", "___x1", "_", "weight", "index", "size", "0", "1 ",
+                "x12", "G3"]
         rng.shuffle(pool)
         nodes = [["s", x] for x in pool[:n]]
     elif r < 0.9:
-        nodes = [["i", x] for x in rng.sample(range(0, n + 3), n)]
+        nodes = [["i", x] for x in rng.sample(list(range(0, n + 3)) + [257, 300, 1000, 65537], n)]
     else:
-        pool = [["s", "a"], ["i", 0], ["s", "b"], ["i", 7], ["s", "__0"], ["i", 10], ["s", "x"], ["i", 3]]   # do not sort
+        pool = [["s", "a"], ["i", 0], ["s", "b"], ["i", 7], ["s", "__0"], ["i", 10], ["s", "x"], ["i", 3],
+                ["s", "c"], ["i", 300], ["s", "__7"], ["i", 1000], ["s", "d"]]   # do not sort
         rng.shuffle(pool)
         nodes = pool[:n]
     node_order = ids[:]
@@ -323,6 +374,54 @@ def gen_big_net(rng):
     rng.shuffle(corder)
     return {"nodes": nodes, "node_order": order, "edges": edges, "cpd_order": corder, "pars": pars, "card": card,
             "names": names, "vals": vals, "lat": [], "buf": False}
+
+
+def gen_wide_net(rng):
+    """class P: a variable with more than 256 states (257..400) - as a child with sparse columns whose mass sits on
+    high state numbers, as a parent (one column per state), or both (chain A -> X -> Y with X wide)"""
+    wide = rng.randint(257, 400)
+    variant = rng.choice(["wide-child", "wide-parent", "wide-middle"])
+    if variant == "wide-child":
+        card, pars = [rng.choice([2, 3]), wide], {"0": [], "1": [0]}
+        edges = [[0, 1]]
+    elif variant == "wide-parent":
+        card, pars = [wide, rng.choice([2, 3])], {"0": [], "1": [0]}
+        edges = [[0, 1]]
+    else:
+        card, pars = [2, wide, 2], {"0": [], "1": [0], "2": [1]}
+        edges = [[0, 1], [1, 2]]
+    n = len(card)
+
+    def sparse(c):
+        k = rng.choice([1, 2, 3, 3])
+        pos = set()
+        while len(pos) < min(k, c):
+            pos.add(rng.randrange(256, c) if c > 256 and rng.random() < 0.8 else rng.randrange(c))
+        ws = {1: [Fraction(1)], 2: [Fraction(1, 2), Fraction(1, 2)], 3: [Fraction(1, 2), Fraction(1, 4), Fraction(1, 4)]}[len(pos)]
+        col = [Fraction(0)] * c
+        for i, w in zip(sorted(pos), ws):
+            col[i] = w
+        return col
+
+    vals = []
+    for v in range(n):
+        ncol = 1
+        for u in pars[str(v)]:
+            ncol *= card[u]
+        if card[v] > 256:
+            cols = [sparse(card[v]) for _ in range(ncol)]
+        else:
+            base = [common.rand_column(rng, card[v], zeros=True) for _ in range(3)]
+            cols = [base[rng.randrange(3)] for _ in range(ncol)]
+        flat = [cols[j][s_] for s_ in range(card[v]) for j in range(ncol)]
+        vals.append([[x.numerator, x.denominator] for x in flat])
+    style = rng.choice(["int", "str"])
+    names = [[["i", i] for i in range(c)] if style == "int" else [["s", "s%d" % i] for i in range(c)] for c in card]
+    nodes = [["s", x] for x in ["Aw", "Xw", "Yw"][:n]]
+    order = list(range(n))
+    rng.shuffle(order)
+    return {"nodes": nodes, "node_order": order, "edges": edges, "cpd_order": order[::-1], "pars": pars, "card": card,
+            "names": names, "vals": vals, "lat": [], "buf": False, "variant": variant}
 
 
 def gen_tiny_net(rng):
@@ -394,7 +493,7 @@ def cases(tier, seed):
 
     for _ in range(150 * mult):
         c = opt("forward", min_edges=1 if rng.random() < 0.8 else 0)
-        c["size"] = rng.choice([1, 2, 3, 5, 8, 13, 30])
+        c["size"] = rng.choice([1, 2, 3, 5, 8, 9, 13, 16, 17, 30, 32, 33, 257])
         c["incl"] = rng.random() < 0.5
         c["partial"] = rng.random() < 0.3
         c["defaults"] = rng.random() < 0.25      # show_progress left at its default
@@ -434,6 +533,16 @@ def cases(tier, seed):
         out.append(c)
     for _ in range(3 * mult):
         out.append({"kind": "big", "net": gen_big_net(rng), "oseed": rng.randint(0, 10**9)})
+    # class P: more than 256 states; 9-12 node chains / trees
+    for _ in range(4 * mult):
+        out.append({"kind": "wide", "net": gen_wide_net(rng), "oseed": rng.randint(0, 10**9),
+                    "seed": rng.randint(0, 10**6)})
+    for k_ in ("forward", "lw", "reject"):
+        for _ in range(6 * mult):
+            c = opt(k_, nmin=9, nmax=12, maxcard=3, min_edges=1)
+            c.update({"size": rng.choice([1, 8, 9, 17]), "incl": rng.random() < 0.5, "partial": rng.random() < 0.2,
+                      "nev": rng.choice([1, 2])})
+            out.append(c)
     # boundary start states of the chains (MarkovChain._check_state): -1, 0, card-1, card, card+1 at every position
     for _ in range(10 * mult):
         out.append({"kind": "gibbs_start", "net": gen_net(rng, nmax=4, styles=good, zeros=False, maxcard=3, min_edges=1,
@@ -921,6 +1030,8 @@ def run_kind(case, drv, N, model, key, tags, kind):
         return run_big(case, drv, N, model, key, tags)
     if kind == "gibbs_start":
         return run_gibbs_start(case, drv, N, model, key, tags)
+    if kind == "wide":
+        return run_wide(case, drv, N, model, key, tags)
     raise ValueError(kind)
 
 
@@ -994,8 +1105,10 @@ def run_reject(case, drv, N, model, key, tags, sampler=None):
     partial = gen_partial(N, rng, psize, avoid=[v for v, _ in evn]) if case.get("partial") else []
     s = sampler or BayesianModelSampling(model)
     order = [N.id[x] for x in s.topological_order]
-    ev = [State(N.node[v], N.names[v][k]) for v, k in evn]
+    ev = [State(fresh(N.node[v]), fresh(N.names[v][k])) for v, k in evn]
+    ev, ckind = as_container(random.Random(case["oseed"] + 11), ev, ["list", "list", "tuple", "plain"])
     evsnap = list(ev)
+    tags.append("evidence-as=" + ckind)
     pdf = partial_df(N, partial, rng) if partial else None
     psnap = snapshot_df(pdf)
     sizes = []
@@ -1014,7 +1127,7 @@ def run_reject(case, drv, N, model, key, tags, sampler=None):
         return ok(nontrivial=False, key=key, tags=tags + ["oracle-limit"])
     finally:
         del s.forward_sample
-    if ev != evsnap or not df_unchanged(pdf, psnap):
+    if list(ev) != evsnap or not df_unchanged(pdf, psnap):
         return bad("mutated-argument", {"what": "rejection_sample changed evidence / partial_samples", "case": case},
                    key=key, tags=tags)
     tags += ["size=%d" % size, "incl=%s" % incl, "partial=%d" % len(partial), "nev=%d" % len(evn),
@@ -1066,11 +1179,13 @@ def run_lw(case, drv, N, model, key, tags, sampler=None):
         evn = [list(x) for x in case["force_ev"]]
     s = sampler or BayesianModelSampling(model)
     order = [N.id[x] for x in s.topological_order]
-    ev = [State(N.node[v], N.names[v][k]) for v, k in evn]
-    evsnap = list(ev)
+    ev0 = [State(fresh(N.node[v]), fresh(N.names[v][k])) for v, k in evn]
+    ev, ckind = as_container(random.Random(case["oseed"] + 11), ev0, ["list", "list", "tuple", "gen", "plain"])
+    evsnap = list(ev) if ckind != "gen" else None
+    tags.append("evidence-as=" + ckind)
     with oracle(case["oseed"]) as o:
         df = s.likelihood_weighted_sample(evidence=ev, size=size, include_latents=incl, show_progress=False)
-    if ev != evsnap:
+    if evsnap is not None and list(ev) != evsnap:
         return bad("mutated-argument", {"what": "likelihood_weighted_sample changed the evidence list", "case": case},
                    key=key, tags=tags)
     tags += ["size=%d" % size, "incl=%s" % incl, "nev=%d" % len(evn), "calls=%d" % len(o.calls)]
@@ -1408,6 +1523,39 @@ def run_gibbs_start(case, drv, N, model, key, tags):
     return ok(nontrivial=True, key=key, tags=tags)
 
 
+def run_wide(case, drv, N, model, key, tags):
+    """a variable with 257..400 states: oracle comparison of forward / likelihood-weighted / rejection samples and
+    simulate, and (real RNG, supporting) a state whose CPD entry is exactly 0 never appears"""
+    from pgmpy.sampling import BayesianModelSampling
+
+    rng = random.Random(case["oseed"])
+    w = max(range(N.n), key=lambda v: N.card[v])
+    high = [k for k in range(256, N.card[w]) if any(N.vals[w][k * N.ncol(w) + j] > 0 for j in range(N.ncol(w)))]
+    ev_state = rng.choice(high) if high else 0
+    small = [v for v in range(N.n) if v != w]
+    ops = [sub_case("forward", rng, case["net"], size=12, partial=False),
+           sub_case("lw", rng, case["net"], size=8, nev=1, force_ev=[[w, ev_state]]),
+           sub_case("lw", rng, case["net"], size=6, nev=1, force_ev=[[small[0], 0]]),
+           sub_case("simulate", rng, case["net"], size=3, partial=False, ndo=0, nev=0)]
+    for op in ops:
+        t = []
+        fn = {"forward": run_forward, "lw": run_lw, "simulate": run_simulate}[op["kind"]]
+        r = fn(op, drv, N, model, key, t)
+        if not r["ok"]:
+            r["tags"] = tags + ["failed-step=" + op["kind"]]
+            return r
+    df = BayesianModelSampling(model).forward_sample(size=200, seed=case["seed"], show_progress=False,
+                                                     include_latents=True)
+    rows, e = rows_numbers(N, df)
+    if e:
+        return bad("structural", {"what": "forward_sample: " + e, "case": case}, key=key, tags=tags)
+    z = zero_cell(N, rows)
+    if z:
+        return bad("impl!=spec", {"what": "forward_sample produced a state whose CPD entry is exactly 0", "where": z,
+                                  "case": case}, key=key, tags=tags)
+    return ok(nontrivial=bool(high), key=key, tags=tags + ["wide=%d" % N.card[w], "variant=" + case["net"].get("variant", "")])
+
+
 def run_gibbs_seed(case):
     """a fixed seed reproduces GibbsSampling.sample also when the start state is drawn at random (start_state=None):
     fresh samplers, same seed, different state of the global RNG before the call (repaired by 606fa27: the seed is set
@@ -1512,9 +1660,14 @@ def run_gibbs(case, drv, N, model, key, tags):
         g2 = GibbsSampling(model)
         with oracle(case["oseed"]) as o:
             try:
-                start_states = [State(N.node[v], s) for v, s in zip(vars_, start)]
+                start_states = [State(fresh(N.node[v]), s) for v, s in zip(vars_, start)]
                 snapshot = list(start_states)
-                df = g2.sample(start_state=start_states, size=size, include_latents=True)
+                arg, ckind = as_container(random.Random(case["oseed"] + 11), start_states,
+                                          ["list", "list", "tuple", "gen", "plain", "items"])
+                if ckind == "list":
+                    arg = start_states
+                tags.append("start-as=" + ckind)
+                df = g2.sample(start_state=arg, size=size, include_latents=True)
                 err = None
                 if start_states != snapshot:
                     return bad("mutated-argument", {"what": "GibbsSampling.sample changed the caller's start_state "
@@ -1704,8 +1857,8 @@ def run_simulate(case, drv, N, model, key, tags):
 
     vcpds = [soft_cpd(v, q) for _, v, q in virt]
     icpds = [soft_cpd(v, q) for _, v, q in vint]
-    a_do = {N.node[v]: N.names[v][k] for v, k in dos} or None
-    a_ev = {N.node[v]: N.names[v][k] for v, k in evn} or None
+    a_do = {fresh(N.node[v]): fresh(N.names[v][k]) for v, k in dos} or None
+    a_ev = {fresh(N.node[v]): fresh(N.names[v][k]) for v, k in evn} or None
     pdf = partial_df(N, partial, rng) if partial else None
     snap = (dict(a_do or {}), dict(a_ev or {}), list(vcpds), list(icpds),
             [np.array(c.get_values(), dtype=float).copy() for c in vcpds + icpds], snapshot_df(pdf),
